@@ -65,5 +65,5 @@ package urltree
 //@   ensures[every-wildcard-on-the-way] forall(j, 0, walkedParts, path[j].WildcardChild != nil && path[j].WildcardChild.Value != nil ==> 0 <= fpos[j] && fpos[j] < len(result.found) && result.found[fpos[j]] == *path[j].WildcardChild.Value)
 //@   ensures[walk] 0 <= walkedParts && walkedParts <= len(splitURL) && forall(j, 0, walkedParts, stepTo(path[j], splitURL[j], path[j+1]))
 //@   ensures[stops-only-without-a-child] walkedParts < len(splitURL) ==> !litStep(path[walkedParts], splitURL[walkedParts]) && !parStep(path[walkedParts], splitURL[walkedParts])
-//@   ensures[own-node-included] walkedParts == len(splitURL) && path[walkedParts].Value != nil && path[walkedParts].WildcardChild == nil ==> len(result.found) > 0 && result.found[len(result.found) - 1] == *path[walkedParts].Value
+//@   ensures[own-node-included] walkedParts == len(splitURL) && path[walkedParts].Value != nil ==> len(result.found) > 0 && result.found[len(result.found) - 1] == *path[walkedParts].Value
 //@   ensures[own-node-only-when-the-whole-url-was-walked] forall(r, 0, len(result.found), exists(j, 0, walkedParts + 1, path[j].WildcardChild != nil && path[j].WildcardChild.Value != nil && result.found[r] == *path[j].WildcardChild.Value) || (walkedParts == len(splitURL) && path[walkedParts].Value != nil && result.found[r] == *path[walkedParts].Value))
